@@ -19,7 +19,7 @@ def regen_all():
 
 def _load():
     import importlib
-    for m in ("modlib", "lpddr_tables"):
+    for m in ("modlib", "lpddr_tables", "init_tables"):
         importlib.import_module("translators." + m)
 
 _load()
